@@ -99,6 +99,25 @@ def check(case, ctx):
             x = as_real_array(ctx, out.value, (4,), route=r, what="product")
             if x is not None:
                 ctx.le("product = Hamilton product", rel(x, ab, sab), REL, {"got": x, "ref": ab}, route=r)
+    # mixed operands: a right operand typed in whole numbers (an int array, a list or tuple of ints) against a left operand with fractional
+    # components - the product is the Hamilton product of the values, whatever the element type of either side
+    bw = np.round(bb / nb * 3.0) + 0.0
+    if np.any(bw) and not forms.integral(aa):
+        abw = rq.qmul(aa, bw)
+        sw = na * np.linalg.norm(bw)
+        ki = int(abs(float(aa[2])) * 1e6) % 4
+        typed = [bw.astype(np.int64), bw.astype(np.int32), [int(x) for x in bw], tuple(int(x) for x in bw)][ki]
+        for r, fn in (("Quaternion.product", lambda: A.product(typed)), ("Quaternion.__mul__", lambda: A * typed), ("Quaternion.__matmul__", lambda: A @ typed),
+                      ("orientation.q_prod", lambda: o.q_prod(aa.copy(), typed))):
+            out = call(fn)
+            if not out.ok and isinstance(out.exc, TypeError):
+                ctx.note("right operand of element type %s refused with a TypeError (a clear refusal: recorded, not judged)" % ["int64", "int32", "list", "tuple"][ki])
+                continue
+            if ctx.returned(out, clause="no-exception[right operand typed in whole numbers]", route=r):
+                x = np.asarray(out.value)
+                if ctx.ok("product with a whole-number-typed right operand is a real 4-vector", x.shape == (4,) and x.dtype.kind in "fiu", {"shape": list(x.shape), "dtype": str(x.dtype)}, route=r):
+                    ctx.le("product with a right operand typed in whole numbers = Hamilton product of the values", rel(x, abw, sw), REL,
+                           {"got": np.asarray(x, float), "ref": abw, "right_operand": ["int64", "int32", "list", "tuple"][ki], "dtype_of_result": str(x.dtype)}, route=r)
     if case.region == "whole":
         for r, fn in (("Quaternion.product", lambda x, y: Q(x, versor=versor).product(y)), ("Quaternion.__mul__", lambda x, y: np.asarray(Q(x, versor=versor) * y)),
                       ("Quaternion.__matmul__", lambda x, y: np.asarray(Q(x, versor=versor) @ y)), ("orientation.q_prod", lambda x, y: o.q_prod(x, y)),
